@@ -153,7 +153,14 @@ def log(x):
     Assumed.note("log/exp are uninterpreted real functions; only the algebraic facts an obligation states explicitly are used")
     if _is_tensor(x):
         return x.map(log)
-    return Sym(_LOG(_real(_lift(x))))
+    xe = _real(_lift(x))
+    le = _LOG(xe)
+    # the SIGN of a logarithm is part of the model (log x < 0 below 1, = 0 at 1, > 0 above): e.g. the log of a uniform
+    # draw on [0, 1) is negative, which makes a clamp min(0, .) of the acceptance ratio redundant
+    from ..sym import engine
+
+    engine().assume(z3.And(z3.Implies(z3.And(xe >= 0, xe < 1), le < 0), z3.Implies(xe == 1, le == 0), z3.Implies(xe > 1, le > 0)))  # log 0 = -inf < 0
+    return Sym(le)
 
 
 def exp(x):
@@ -540,7 +547,7 @@ def namespace(**extra):
     ns = StubNS(
         result_type=result_type, issubdtype=issubdtype, floating="floating", integer="integer", inexact="inexact", complexfloating="complexfloating", number="number",
         array=array, asarray=asarray, shape=shape, ndim=ndim, where=where, logical_xor=logical_xor, take=take, sum=sum, any=any,
-        minimum=minimum, maximum=maximum, log=log, exp=exp, add=add, ndarray=object, arange=arange, zeros=zeros, ones=ones, mean=mean, repeat=repeat, nan=float('nan'), inf=INF, isfinite=isfinite, isinf=lambda x: ~isfinite(x), cumsum=cumsum, searchsorted=searchsorted, diag=diag, linalg=StubNS(inv=inv, slogdet=slogdet, cholesky=cholesky), zeros_like=zeros_like, ones_like=ones_like, negative=lambda x: -x, all=all, allclose=allclose, full=full, full_like=full_like, concatenate=concatenate,
+        minimum=minimum, maximum=maximum, log=log, exp=exp, add=add, ndarray=object, arange=arange, zeros=zeros, ones=ones, mean=mean, repeat=repeat, nan=float('nan'), inf=INF, isfinite=isfinite, isinf=lambda x: ~isfinite(x), cumsum=cumsum, searchsorted=searchsorted, diag=diag, linalg=StubNS(inv=inv, slogdet=slogdet, cholesky=cholesky), zeros_like=zeros_like, ones_like=ones_like, negative=lambda x: -x, logical_not=lambda x: ~x, all=all, allclose=allclose, full=full, full_like=full_like, concatenate=concatenate,
         float32="float32", int32="int32", bool_="bool", pi=3.141592653589793,
     )
     for k, v in extra.items():
